@@ -69,6 +69,9 @@ class StrictDoc:
             if o["stream"] is not None:
                 a, l = o["stream"]
                 v = Stream(v, data[a:a + l])
+            if o["where"][0] == "c" and b"Encrypt" in self.trailer:
+                import dociso
+                v = dociso.OPAQUE
             self.objs[(o["num"], o["gen"])] = v
             self.where[(o["num"], o["gen"])] = o["where"]
 
